@@ -65,16 +65,21 @@ impl Target {
 /// async_std::path::Path
 #[verifier::external_body]
 pub struct Path { _p: () }
+/// what a path is on disk (A-fs; links followed): the three probes of `clean_path` see the same answer as long as
+/// nothing was deleted in between - the second argument is the number of deletions attempted so far
+pub ghost enum PathKind { Absent, File, Dir, Other }
+pub uninterp spec fn kind_at(p: PathBuf, deletions_so_far: nat) -> PathKind;
 impl Path {
     pub uninterp spec fn buf(&self) -> PathBuf;
     #[verifier::external_body]
     pub fn exists(&self, Tracked(w): Tracked<&mut World>) -> (r: bool)
         ensures *final(w) == (World { probed: old(w).probed.push(self.buf()), ..*old(w) }),
+            r == !(kind_at(self.buf(), old(w).deleted.len()) is Absent),
     { unimplemented!() }
     #[verifier::external_body]
-    pub fn is_file(&self, Tracked(w): Tracked<&mut World>) -> (r: bool) ensures *final(w) == *old(w) { unimplemented!() }
+    pub fn is_file(&self, Tracked(w): Tracked<&mut World>) -> (r: bool) ensures *final(w) == *old(w), r == (kind_at(self.buf(), old(w).deleted.len()) is File) { unimplemented!() }
     #[verifier::external_body]
-    pub fn is_dir(&self, Tracked(w): Tracked<&mut World>) -> (r: bool) ensures *final(w) == *old(w) { unimplemented!() }
+    pub fn is_dir(&self, Tracked(w): Tracked<&mut World>) -> (r: bool) ensures *final(w) == *old(w), r == (kind_at(self.buf(), old(w).deleted.len()) is Dir) { unimplemented!() }
     #[verifier::external_body]
     pub fn display(&self) -> u8 { unimplemented!() }
 }
@@ -181,6 +186,53 @@ pub proof fn lemma_push_allowed(d0: Seq<Del>, d1: Seq<Del>, t: Target, x: Del)
     assert(d1.push(x).subrange(0, d0.len() as int) =~= d1.subrange(0, d0.len() as int));
 }
 
+/// [C12.deletes] the output resource has been dealt with: every file its listing denotes was handed to `remove_file`
+/// (extension-filtered outputs); every declared path was probed by `clean_path`, which removes what it finds (plain outputs)
+pub open spec fn res_cleaned(res: FilesResource, deleted: Seq<Del>, probed: Seq<PathBuf>) -> bool {
+    if res.extensions is Some {
+        forall|f: PathBuf| #![trigger listing(res.paths@, res.extensions).contains(f)] listing(res.paths@, res.extensions).contains(f) ==> deleted.contains(Del::File(f))
+    } else {
+        forall|i: int| 0 <= i < res.paths@.len() ==> probed.contains(#[trigger] res.paths@[i])
+    }
+}
+/// `a` is a prefix of `b` (logs only grow)
+pub open spec fn grows<A>(a: Seq<A>, b: Seq<A>) -> bool { a.len() <= b.len() && b.subrange(0, a.len() as int) =~= a }
+pub proof fn lemma_grows_contains<A>(a: Seq<A>, b: Seq<A>, x: A)
+    requires grows(a, b), a.contains(x),
+    ensures b.contains(x),
+{
+    let i = choose|i: int| 0 <= i < a.len() && a[i] == x;
+    assert(b.subrange(0, a.len() as int)[i] == b[i]);
+}
+pub proof fn lemma_grows_trans<A>(a: Seq<A>, b: Seq<A>, c: Seq<A>)
+    requires grows(a, b), grows(b, c),
+    ensures grows(a, c),
+{
+    assert forall|i: int| 0 <= i < a.len() implies c.subrange(0, a.len() as int)[i] == a[i] by {
+        assert(b.subrange(0, a.len() as int)[i] == b[i]);
+        assert(c.subrange(0, b.len() as int)[i] == c[i]);
+    }
+}
+pub broadcast proof fn lemma_take_all<A>(s: Seq<A>)
+    ensures #[trigger] s.take(s.len() as int) == s
+{
+    assert(s.take(s.len() as int) =~= s);
+}
+pub proof fn lemma_cleaned_grows(res: FilesResource, d: Seq<Del>, p: Seq<PathBuf>, d2: Seq<Del>, p2: Seq<PathBuf>)
+    requires res_cleaned(res, d, p), grows(d, d2), grows(p, p2),
+    ensures res_cleaned(res, d2, p2),
+{
+    if res.extensions is Some {
+        assert forall|f: PathBuf| #![trigger listing(res.paths@, res.extensions).contains(f)] listing(res.paths@, res.extensions).contains(f) implies d2.contains(Del::File(f)) by {
+            lemma_grows_contains(d, d2, Del::File(f));
+        }
+    } else {
+        assert forall|i: int| 0 <= i < res.paths@.len() implies p2.contains(#[trigger] res.paths@[i]) by {
+            lemma_grows_contains(p, p2, res.paths@[i]);
+        }
+    }
+}
+
 // ===========================================================================
 // clean.rs, work_dir.rs
 // ===========================================================================
@@ -190,6 +242,10 @@ pub proof fn lemma_push_allowed(d0: Seq<Del>, d1: Seq<Del>, t: Target, x: Del)
         final(w).steps == old(w).steps, final(w).run_failed == old(w).run_failed, final(w).resolved == old(w).resolved,
         /*[C12.complete]*/ final(w).probed == old(w).probed.push(path.buf()),
         /*[C12.frame]*/ final(w).deleted == old(w).deleted || final(w).deleted == old(w).deleted.push(Del::File(path.buf())) || final(w).deleted == old(w).deleted.push(Del::DirAll(path.buf())),
+        // and it does delete: a declared output that is a file is removed as a file, a directory with everything below it
+        /*[C12.deletes]*/ kind_at(path.buf(), old(w).deleted.len()) is File ==> final(w).deleted == old(w).deleted.push(Del::File(path.buf())),
+        /*[C12.deletes]*/ kind_at(path.buf(), old(w).deleted.len()) is Dir ==> final(w).deleted == old(w).deleted.push(Del::DirAll(path.buf())),
+        /*[C12.deletes]*/ kind_at(path.buf(), old(w).deleted.len()) is Absent || kind_at(path.buf(), old(w).deleted.len()) is Other ==> final(w).deleted == old(w).deleted,
 //@end
 
 //@fn src/clean.rs clean_target_output_paths ret=r
@@ -198,6 +254,7 @@ pub proof fn lemma_push_allowed(d0: Seq<Del>, d1: Seq<Del>, t: Target, x: Del)
         final(w).steps == old(w).steps, final(w).run_failed == old(w).run_failed, final(w).resolved == old(w).resolved,
         /*[C12.frame]*/ new_dels_allowed(old(w).deleted, final(w).deleted, *target),
         /*[C12.frame]*/ target.out() is None ==> final(w).deleted == old(w).deleted,
+        /*[C12.deletes]*/ r is Ok ==> (target.out() matches Some(o) ==> forall|i: int| 0 <= i < o.files@.len() ==> res_cleaned(#[trigger] o.files@[i], final(w).deleted, final(w).probed)),
 //@pre
         broadcast use axiom_path_key_model;
         broadcast use vstd::std_specs::hash::group_hash_axioms;
@@ -208,10 +265,13 @@ pub proof fn lemma_push_allowed(d0: Seq<Del>, d1: Seq<Del>, t: Target, x: Del)
                 /*[C12.frame]*/ target.out() == Some(output),
                 it0.seq().unref() == output.files@,
                 new_dels_allowed(old(w).deleted, w.deleted, *target),
+                /*[C12.deletes]*/ forall|i: int| 0 <= i < it0.index@ ==> res_cleaned(#[trigger] output.files@[i], w.deleted, w.probed),
 //@loopbody
             broadcast use axiom_path_key_model;
             broadcast use vstd::std_specs::hash::group_hash_axioms;
             proof { assert(it0.seq().unref()[it0.index@ as int] == *resource); }
+            let ghost d_it = w.deleted;
+            let ghost p_it = w.probed;
 //@loop 1 binder=it1 set-owned
                     invariant
                         w.steps == old(w).steps, w.run_failed == old(w).run_failed, w.resolved == old(w).resolved,
@@ -220,15 +280,36 @@ pub proof fn lemma_push_allowed(d0: Seq<Del>, d1: Seq<Del>, t: Target, x: Del)
                         /*[C12.frame]*/ resource.extensions is Some,
                         /*[C15.same-listing]*/ it1.seq().unref().to_set() == listing(resource.paths@, resource.extensions),
                         new_dels_allowed(old(w).deleted, w.deleted, *target),
+                        grows(d_it, w.deleted), w.probed == p_it,
+                        forall|i: int| 0 <= i < it0.index@ ==> res_cleaned(#[trigger] output.files@[i], d_it, p_it),
+                        handled == it1.seq().unref().take(it1.index@ as int),
+                        /*[C12.deletes]*/ forall|j: int| 0 <= j < handled.len() ==> w.deleted.contains(Del::File(#[trigger] handled[j])),
 //@loopbody
                     broadcast use axiom_path_key_model;
                     broadcast use vstd::std_specs::hash::group_hash_axioms;
+                    let ghost d_b1 = w.deleted;
                     proof {
                         assert(it1.seq().unref()[it1.index@ as int] == *file__ref);
                         assert(it1.seq().unref().to_set().contains(*file__ref));
                         assert(allowed_res(output.files@[it0.index@ as int], Del::File(*file__ref)));
                         assert(allowed_out(*target, Del::File(*file__ref)));
                         lemma_push_allowed(old(w).deleted, w.deleted, *target, Del::File(*file__ref));
+                    }
+//@after 0 `fs::remove_file(&file)`
+                    proof {
+                        // [C12.deletes] the file just handed to remove_file is in the log; the earlier ones still are
+                        assert(w.deleted == d_b1.push(Del::File(*file__ref)));
+                        assert(w.deleted[d_b1.len() as int] == Del::File(*file__ref));
+                        assert(grows(d_b1, w.deleted));
+                        lemma_grows_trans(d_it, d_b1, w.deleted);
+                        let ghost h0 = handled;
+                        handled = handled.push(*file__ref);
+                        assert(handled =~= it1.seq().unref().take(it1.index@ as int + 1));
+                        assert forall|j: int| 0 <= j < handled.len() implies w.deleted.contains(Del::File(#[trigger] handled[j])) by {
+                            if j < h0.len() {
+                                lemma_grows_contains(d_b1, w.deleted, Del::File(h0[j]));
+                            }
+                        }
                     }
 //@loop 2 binder=it2
                     invariant
@@ -238,7 +319,12 @@ pub proof fn lemma_push_allowed(d0: Seq<Del>, d1: Seq<Del>, t: Target, x: Del)
                         /*[C12.frame]*/ resource.extensions is None,
                         it2.seq().unref() == resource.paths@,
                         new_dels_allowed(old(w).deleted, w.deleted, *target),
+                        grows(d_it, w.deleted), grows(p_it, w.probed),
+                        forall|i: int| 0 <= i < it0.index@ ==> res_cleaned(#[trigger] output.files@[i], d_it, p_it),
+                        /*[C12.deletes]*/ forall|j: int| 0 <= j < it2.index@ ==> w.probed.contains(#[trigger] resource.paths@[j]),
 //@loopbody
+                    let ghost d_b2 = w.deleted;
+                    let ghost p_b2 = w.probed;
                     proof {
                         assert(it2.seq().unref()[it2.index@ as int] == *output_path);
                         assert(resource.paths@.contains(*output_path));
@@ -249,6 +335,47 @@ pub proof fn lemma_push_allowed(d0: Seq<Del>, d1: Seq<Del>, t: Target, x: Del)
                         lemma_push_allowed(old(w).deleted, w.deleted, *target, Del::File(*output_path));
                         lemma_push_allowed(old(w).deleted, w.deleted, *target, Del::DirAll(*output_path));
                     }
+//@after 0 `clean_path(output_path)`
+                    proof {
+                        assert(w.probed == p_b2.push(*output_path));
+                        assert(w.probed[p_b2.len() as int] == *output_path);
+                        assert(grows(p_b2, w.probed));
+                        assert(grows(d_b2, w.deleted));
+                        lemma_grows_trans(p_it, p_b2, w.probed);
+                        lemma_grows_trans(d_it, d_b2, w.deleted);
+                        assert forall|j: int| 0 <= j < it2.index@ + 1 implies w.probed.contains(#[trigger] resource.paths@[j]) by {
+                            if j < it2.index@ {
+                                lemma_grows_contains(p_b2, w.probed, resource.paths@[j]);
+                            }
+                        }
+                    }
+//@before 0 `for file in resource_files`
+                    let ghost mut handled: Seq<PathBuf> = Seq::empty();
+//@after 0 `for file in resource_files`
+                    proof {
+                        // [C12.deletes] every file of the listing went through remove_file
+                        broadcast use lemma_take_all;
+                        assert(handled.to_set() =~= listing(resource.paths@, resource.extensions));
+                        assert forall|f: PathBuf| #![trigger listing(resource.paths@, resource.extensions).contains(f)] listing(resource.paths@, resource.extensions).contains(f) implies w.deleted.contains(Del::File(f)) by {
+                            assert(handled.to_set().contains(f));
+                            let j = choose|j: int| 0 <= j < handled.len() && handled[j] == f;
+                            assert(w.deleted.contains(Del::File(handled[j])));
+                        }
+                        assert(res_cleaned(*resource, w.deleted, w.probed));
+                    }
+//@after 0 `for output_path in &resource.paths`
+                    proof { assert(res_cleaned(*resource, w.deleted, w.probed)); }
+//@after 0 `if resource.extensions.is_some()`
+            proof {
+                // [C12.deletes] this resource is dealt with, and the earlier ones stay dealt with (the logs only grew)
+                assert(grows(d_it, w.deleted) && grows(p_it, w.probed));
+                assert(res_cleaned(*resource, w.deleted, w.probed));
+                assert forall|i: int| 0 <= i < it0.index@ + 1 implies res_cleaned(#[trigger] output.files@[i], w.deleted, w.probed) by {
+                    if i < it0.index@ {
+                        lemma_cleaned_grows(output.files@[i], d_it, p_it, w.deleted, w.probed);
+                    }
+                }
+            }
 //@end
 
 /// `work_dir::get_work_dir_path`: `<project_dir>/.zinoma` (path join: assumed)
